@@ -325,6 +325,35 @@ func sharedWrites(p *pkgInfo) (writes []string, globals []string) {
 	return
 }
 
+// refGlobals: the package-level variables whose type is a slice, a map, a pointer, a channel, an array or a struct
+// (memory that every goroutine of the process reaches, and that a caller who is handed it can write to), with their
+// type. Error values (interfaces), strings, numbers and functions are not listed.
+func refGlobals(p *pkgInfo) []string {
+	var out []string
+	for _, f := range p.files {
+		for _, d := range f.Decls {
+			x, ok := d.(*ast.GenDecl)
+			if !ok || x.Tok != token.VAR {
+				continue
+			}
+			for _, sp := range x.Specs {
+				for _, n := range sp.(*ast.ValueSpec).Names {
+					obj := p.info.Defs[n]
+					if obj == nil || obj.Type() == nil {
+						continue
+					}
+					switch obj.Type().Underlying().(type) {
+					case *types.Slice, *types.Map, *types.Pointer, *types.Chan, *types.Array, *types.Struct:
+						out = append(out, n.Name+" "+obj.Type().String())
+					}
+				}
+			}
+		}
+	}
+	sort.Strings(out)
+	return out
+}
+
 func lstrList(xs []string) string {
 	parts := make([]string, len(xs))
 	for i, x := range xs {
